@@ -32,7 +32,7 @@ PROFILE = {"add_formula_column": 10, "modify_formula": 6, "summary": 4, "update_
            "reverse_column": 1, "update_record": 18, "bulk_update": 8, "remove_record": 8, "bulk_remove": 4,
            "replace_data": 2, "rename_column": 4, "modify_type": 4, "to_formula": 2, "to_data": 1,
            "undo_earlier": 3, "malformed": 2, "trigger_column": 0, "trigger_config": 0, "unhashable_key": 4,
-           "lookup_chain": 14,
+           "lookup_chain": 14, "ref_reach_retype": 5,
            # an OLD undo list replayed on a document that has moved on is a raw application of doc actions: it can
            # remove a table under its summary table or a column under its references (a document violating C09);
            # such documents are outside this property's histories, as for C09 / C10 / C11 / C12
